@@ -195,6 +195,8 @@ def runDeep (_prop : String) (_f : List String) (obsS : String) : Verdict :=
 
 def runStop0 (_prop : String) (_f : List String) (obsS : String) : Verdict :=
   if obsS == "ok" then ⟨true, "ok", "ok", none, ["capacity-0-last-drop"], false⟩
+  else if (obsS.splitOn "no-emit-was-accepted").length > 1 then
+    ⟨true, obsS, obsS, some ("C10", "a zero-capacity queuing sink whose worker waits for a metric: " ++ obsS), ["capacity-0-last-drop"], false⟩
   else ⟨true, obsS, obsS, some ("C09+C08", "the last handle of a zero-capacity queuing sink dropped while the worker returns to recv(): " ++ obsS), ["capacity-0-last-drop"], false⟩
 
 def runEmitDrop (_prop : String) (_f : List String) (obsS : String) : Verdict :=
